@@ -153,6 +153,11 @@ def catalogue(tier, rng, families=None, max_n=64, long_bch=False, rm5=False, all
             G = torch.stack([from_int(r, n) for r in rows])
             add(Entry("Linear(%d,%d)#%d" % (n, k, rep), "linear", (n, k, rep), (lambda G=G: E.LinearBlockCodeEncoder(G)), info="na",
                       component="LinearBlockCodeEncoder"))
+            if rep == 0 and (k, n) in ((3, 7), (4, 8)):
+                # the same kind of matrix given as a boolean tensor and as float64 (the null-space elimination then runs on those dtypes)
+                for dn, dt in (("bool", torch.bool), ("float64", torch.float64)):
+                    add(Entry("Linear(%d,%d)#%d/%s" % (n, k, rep, dn), "linear", (n, k, rep, dn), (lambda G=G, dt=dt: E.LinearBlockCodeEncoder(G.to(dt))), info="na",
+                              component="LinearBlockCodeEncoder"))
     for (k, m) in ([(2, 2), (3, 3), (4, 3), (3, 4)] if quick else [(1, 2), (2, 2), (2, 3), (3, 3), (4, 3), (3, 4), (5, 4), (4, 6)]):
         n = k + m
         P = torch.tensor([[rng.randrange(2) for _ in range(m)] for _ in range(k)], dtype=torch.float32)
